@@ -1142,4 +1142,263 @@ theorem findOnnxOpset_some {evs : List Ev} {v : Nat} (h : Ev.call 1 v ∈ evs) :
       · cases h1
       · exact ih h1
 
+/-! ### the one-node eager model -/
+
+/-- `pick` answers as soon as one candidate is in force -/
+theorem pick_exists {α} (ver : α → Nat) (N : Nat) (l : List α) (best : Option α)
+    (h : (∃ x ∈ l, ver x ≤ N) ∨ best.isSome = true) : ∃ y, pick ver N l best = some y := by
+  induction l generalizing best with
+  | nil =>
+    rcases h with ⟨x, hx, _⟩ | h
+    · cases hx
+    · simp only [pick]; exact Option.isSome_iff_exists.mp h
+  | cons z zs ih =>
+    simp only [pick]
+    split
+    next hz =>
+      split
+      · exact ih _ (Or.inr rfl)
+      · split
+        · exact ih _ (Or.inr rfl)
+        · exact ih _ (Or.inr rfl)
+    next hz =>
+      apply ih
+      rcases h with ⟨x, hx, hxN⟩ | h
+      · rcases List.mem_cons.mp hx with rfl | hx
+        · exact absurd hxN hz
+        · exact Or.inl ⟨x, hx, hxN⟩
+      · exact Or.inr h
+
+/-- **`get_schema` at a schema's own `since_version` finds that schema** (by key): if `get_schema(n, N, d)` is
+`s`, then `get_schema(n, s.since_version, d)` answers, with the same (name, since_version, domain). -/
+theorem lookup_at_since {reg : List Schema} {d N n : Nat} {s : Schema}
+    (h : lookup reg d N n = some s) :
+    ∃ s', lookup reg d s.since n = some s' ∧ s'.key = s.key := by
+  have hs := lookup_some h
+  rw [lookup_eq] at h
+  have hmem : s ∈ selectS d n reg [] id := by
+    rcases pick_mem _ _ _ _ _ h with h1 | h1
+    · exact h1
+    · cases h1
+  rcases pick_exists Schema.since s.since (selectS d n reg [] id) none
+      (Or.inl ⟨s, hmem, Nat.le_refl _⟩) with ⟨s', hs'⟩
+  have hl : lookup reg d s.since n = some s' := by rw [lookup_eq]; exact hs'
+  refine ⟨s', hl, ?_⟩
+  have h1 := lookup_some hl
+  have h2 := (pick_max _ _ _ _ _ hs').1 s hmem (Nat.le_refl _)
+  have h3 : s'.since = s.since := Nat.le_antisymm h1.2.2.2 h2
+  simp only [Schema.key]
+  rw [h1.2.1, h1.2.2.1, hs.2.1, hs.2.2.1, h3]
+
+/-- a name that is not a keyword is not found after dropping the `None`-valued keywords either -/
+theorem findKw_dropNone_none {k : Nat} {l : List (Nat × Dflt)} (h : k ∉ l.map Prod.fst) :
+    findKw k (dropNone l) = none := by
+  induction l with
+  | nil => rfl
+  | cons p ps ih =>
+    have hp : (p.1 == k) = false := by
+      cases hc : p.1 == k with
+      | false => rfl
+      | true => exact absurd (by simp only [List.map_cons, List.mem_cons]; left; exact (beq_iff_eq.mp hc).symm) h
+    have ht : k ∉ ps.map Prod.fst := fun hc => h (by simp only [List.map_cons]; exact List.mem_cons_of_mem _ hc)
+    simp only [dropNone]
+    split
+    · exact ih ht
+    · simp only [findKw, hp, Bool.false_eq_true, if_false]; exact ih ht
+
+/-- with distinct keywords (a Python `dict`), dropping the keywords whose value is `None`
+(`if value is not None` in `_prepare_model_and_inputs_for_eager`) does not change what the node means -/
+theorem attrMeaning_dropNone {l : List (Nat × Dflt)} (hnd : (l.map Prod.fst).Nodup) (a : Attr) :
+    attrMeaning (dropNone l) a = attrMeaning l a := by
+  induction l with
+  | nil => rfl
+  | cons p ps ih =>
+    simp only [List.map_cons, List.nodup_cons] at hnd
+    cases hc : p.1 == a.name with
+    | true =>
+      have hk : a.name ∉ ps.map Prod.fst := by rw [← beq_iff_eq.mp hc]; exact hnd.1
+      cases hv : p.2 with
+      | pyNone =>
+        simp only [attrMeaning, dropNone, hv, findKw, hc, if_true, findKw_dropNone_none hk]
+      | absent => simp only [attrMeaning, dropNone, hv, findKw, hc, if_true]
+      | sc s => simp only [attrMeaning, dropNone, hv, findKw, hc, if_true]
+      | list s => simp only [attrMeaning, dropNone, hv, findKw, hc, if_true]
+      | other s => simp only [attrMeaning, dropNone, hv, findKw, hc, if_true]
+    | false =>
+      have := ih hnd.2
+      simp only [attrMeaning] at this
+      cases hv : p.2 with
+      | pyNone => simp only [attrMeaning, dropNone, hv, findKw, hc, Bool.false_eq_true, if_false]; exact this
+      | absent => simp only [attrMeaning, dropNone, hv, findKw, hc, Bool.false_eq_true, if_false]; exact this
+      | sc s => simp only [attrMeaning, dropNone, hv, findKw, hc, Bool.false_eq_true, if_false]; exact this
+      | list s => simp only [attrMeaning, dropNone, hv, findKw, hc, Bool.false_eq_true, if_false]; exact this
+      | other s => simp only [attrMeaning, dropNone, hv, findKw, hc, Bool.false_eq_true, if_false]; exact this
+
+/-- Boolean distinctness (evaluated by the kernel on the tables) -/
+theorem distinctNat_nodup {l : List Nat} (h : distinctNat l = true) : l.Nodup := by
+  induction l with
+  | nil => exact List.nodup_nil
+  | cons x xs ih =>
+    simp only [distinctNat, Bool.and_eq_true, Bool.not_eq_true'] at h
+    refine List.nodup_cons.mpr ⟨?_, ih h.2⟩
+    intro hx
+    have : xs.contains x = true := List.contains_iff_mem.mpr hx
+    rw [this] at h; exact absurd h.1 (by decide)
+
+/-- the keys `fwdKw` produces are the forwarded keyword names, in order -/
+theorem fwdKw_keys {bound attrs : List (Nat × Dflt)} {l : List (Nat × Nat)} (h : fwdKw bound l = some attrs) :
+    attrs.map Prod.fst = l.map Prod.fst := by
+  induction l generalizing attrs with
+  | nil => simp only [fwdKw, Option.some.injEq] at h; subst h; rfl
+  | cons p ps ih =>
+    rcases p with ⟨k, v⟩
+    simp only [fwdKw] at h
+    split at h
+    next x r hx hr => simp only [Option.some.injEq] at h; subst h; simp only [List.map_cons, ih hr]
+    next => cases h
+
+/-- `renameFrom`/`feedsFrom`: the fed names are exactly the non-empty input names, in order -/
+theorem feeds_names {α} (i : Nat) (xs : List (Option α)) :
+    (feedsFrom i xs).map Prod.fst = (renameFrom i xs).filterMap id := by
+  induction xs generalizing i with
+  | nil => rfl
+  | cons x xs ih =>
+    cases x with
+    | none => simp only [feedsFrom, renameFrom, List.filterMap_cons, id]; exact ih _
+    | some v => simp only [feedsFrom, renameFrom, List.filterMap_cons, id, List.map_cons]; rw [ih]
+
+theorem renameFrom_length {α} (i : Nat) (xs : List (Option α)) : (renameFrom i xs).length = xs.length := by
+  induction xs generalizing i with
+  | nil => rfl
+  | cons x xs ih => cases x <;> simp only [renameFrom, List.length_cons, ih]
+
+/-- position `j` of the node's input names is `""` iff argument `j` is `None`, and `input{i+j}` otherwise -/
+theorem renameFrom_get {α} (i : Nat) (xs : List (Option α)) (j : Nat) (hj : j < xs.length) :
+    (renameFrom i xs)[j]? = some ((xs[j]'hj).map (fun _ => i + j)) := by
+  induction xs generalizing i j with
+  | nil => cases hj
+  | cons x xs ih =>
+    cases j with
+    | zero => cases x <;> simp [renameFrom]
+    | succ j =>
+      have hj' : j < xs.length := Nat.lt_of_succ_lt_succ hj
+      have := ih (i + 1) j hj'
+      cases x <;> simp only [renameFrom, List.getElem?_cons_succ, List.getElem_cons_succ, this] <;>
+        simp only [Nat.add_assoc, Nat.add_comm 1 j]
+
+/-- every feed `input{k} ↦ v` is the caller's argument at position `k - i` -/
+theorem feedsFrom_mem {α} (i : Nat) (xs : List (Option α)) (k : Nat) (v : α) (h : (k, v) ∈ feedsFrom i xs) :
+    i ≤ k ∧ xs[k - i]? = some (some v) := by
+  induction xs generalizing i with
+  | nil => cases h
+  | cons x xs ih =>
+    cases x with
+    | none =>
+      simp only [feedsFrom] at h
+      have := ih _ h
+      refine ⟨by omega, ?_⟩
+      have e : k - i = (k - (i + 1)) + 1 := by omega
+      rw [e, List.getElem?_cons_succ]; exact this.2
+    | some w =>
+      simp only [feedsFrom, List.mem_cons] at h
+      rcases h with h | h
+      · simp only [Prod.mk.injEq] at h
+        rcases h with ⟨rfl, rfl⟩
+        exact ⟨Nat.le_refl _, by simp⟩
+      · have := ih _ h
+        refine ⟨by omega, ?_⟩
+        have e : k - i = (k - (i + 1)) + 1 := by omega
+        rw [e, List.getElem?_cons_succ]; exact this.2
+
+/-! ### the name set -/
+
+theorem increasing_head_lt {a : Nat} {r : List Nat} (h : increasing (a :: r) = true) : ∀ x ∈ r, a < x := by
+  induction r generalizing a with
+  | nil => intro x hx; cases hx
+  | cons b r ih =>
+    simp only [increasing, Bool.and_eq_true, decide_eq_true_eq] at h
+    intro x hx
+    rcases List.mem_cons.mp hx with rfl | hx
+    · exact h.1
+    · exact Nat.lt_trans h.1 (ih h.2 x hx)
+
+theorem increasing_tail {a : Nat} {r : List Nat} (h : increasing (a :: r) = true) : increasing r = true := by
+  cases r with
+  | nil => rfl
+  | cons b r => simp only [increasing, Bool.and_eq_true] at h; exact h.2
+
+/-- in a list whose codes strictly increase, an entry is determined by its code -/
+theorem increasing_inj {l : List (String × Nat)} (h : increasing (l.map Prod.snd) = true) {p q : String × Nat}
+    (hp : p ∈ l) (hq : q ∈ l) (he : p.2 = q.2) : p = q := by
+  induction l with
+  | nil => cases hp
+  | cons z zs ih =>
+    simp only [List.map_cons] at h
+    have hlt := increasing_head_lt h
+    rcases List.mem_cons.mp hp with rfl | hp' <;> rcases List.mem_cons.mp hq with rfl | hq'
+    · rfl
+    · have := hlt q.2 (List.mem_map_of_mem hq'); omega
+    · have := hlt p.2 (List.mem_map_of_mem hp'); omega
+    · exact ih (increasing_tail h) hp' hq'
+
+/-! ### a key names one schema -/
+
+theorem selectS_mem_of (d n : Nat) (l acc : List Schema) (s : Schema)
+    (h : s ∈ acc ∨ (s ∈ l ∧ s.domain = d ∧ s.name = n)) : s ∈ selectS d n l acc id := by
+  induction l generalizing acc with
+  | nil =>
+    rcases h with h | ⟨h, _, _⟩
+    · exact h
+    · cases h
+  | cons x xs ih =>
+    simp only [selectS]
+    split
+    next hc =>
+      apply ih
+      rcases h with h | ⟨h, h2, h3⟩
+      · exact Or.inl (List.mem_cons_of_mem _ h)
+      · rcases List.mem_cons.mp h with rfl | h
+        · exact Or.inl List.mem_cons_self
+        · exact Or.inr ⟨h, h2, h3⟩
+    next hc =>
+      apply ih
+      rcases h with h | ⟨h, h2, h3⟩
+      · exact Or.inl h
+      · rcases List.mem_cons.mp h with rfl | h
+        · exfalso; apply hc; simp [h2, h3]
+        · exact Or.inr ⟨h, h2, h3⟩
+
+theorem eq_of_since_nodup {L : List Schema} (h : (L.map Schema.since).Nodup) {s s' : Schema}
+    (hs : s ∈ L) (hs' : s' ∈ L) (he : s.since = s'.since) : s = s' := by
+  induction L with
+  | nil => cases hs
+  | cons z zs ih =>
+    simp only [List.map_cons, List.nodup_cons] at h
+    rcases List.mem_cons.mp hs with rfl | hs1 <;> rcases List.mem_cons.mp hs' with rfl | hs1'
+    · rfl
+    · exact absurd (by rw [he]; exact List.mem_map_of_mem hs1') h.1
+    · exact absurd (by rw [← he]; exact List.mem_map_of_mem hs1) h.1
+    · exact ih h.2 hs1 hs1'
+
+theorem key_unique {reg : List Schema} {chunks : List (Nat × List Nat)} (hu : keysUnique reg chunks = true)
+    (hc : schemasCovered chunks reg = true) {s s' : Schema} (hs : s ∈ reg) (hs' : s' ∈ reg)
+    (hk : s.key = s'.key) : s = s' := by
+  have hin := List.all_eq_true.mp hc s hs
+  rcases inGrid_iff.mp hin with ⟨g, hg, hg1, hg2⟩
+  have h1 := List.all_eq_true.mp (List.all_eq_true.mp hu g hg) s.name hg2
+  rw [selectS_cps] at h1
+  have hnd := distinctNat_nodup h1
+  simp only [Schema.key, Prod.mk.injEq] at hk
+  have m1 : s ∈ selectS g.1 s.name reg [] id := selectS_mem_of _ _ _ _ _ (Or.inr ⟨hs, hg1.symm, rfl⟩)
+  have m2 : s' ∈ selectS g.1 s.name reg [] id :=
+    selectS_mem_of _ _ _ _ _ (Or.inr ⟨hs', by rw [← hk.2.2]; exact hg1.symm, hk.1.symm⟩)
+  exact eq_of_since_nodup hnd m1 m2 hk.2.1
+
+theorem lookup_at_since_eq {reg : List Schema} {chunks : List (Nat × List Nat)}
+    (hu : keysUnique reg chunks = true) (hc : schemasCovered chunks reg = true) {d N n : Nat} {s : Schema}
+    (h : lookup reg d N n = some s) : lookup reg d s.since n = some s := by
+  rcases lookup_at_since h with ⟨s', hl, hk⟩
+  have := key_unique hu hc (lookup_some hl).1 (lookup_some h).1 hk
+  rw [this] at hl; exact hl
+
 end OV.C17
